@@ -189,6 +189,12 @@ type WSCase struct {
 	FailWriteAt   int      `json:"fail_write_at"` // k-th conn write fails (0 never)
 	WriteCompress bool     `json:"write_compress"`
 	Limit         int      `json:"limit"`
+	// AsyncWrite: the connection uses the asynchronous send queue of blocking-mode connections (frames are
+	// queued and written by a sender goroutine). BlockWriteAt > 0: that socket write hangs (peer not
+	// reading) until after the connection has been closed and cleaned, so that the close meets in-flight
+	// and queued frames.
+	AsyncWrite   bool `json:"async_write,omitempty"`
+	BlockWriteAt int  `json:"block_write_at,omitempty"`
 }
 
 func setBool(obj any, field string, v bool) bool {
@@ -205,6 +211,9 @@ func runWS(c WSCase) vlib.Result {
 		tracker.Reset()
 		res := vlib.Result{Classes: []string{"workload=websocket"}}
 		conn := &vlib.FakeConn{FailAt: c.FailWriteAt}
+		if c.AsyncWrite && c.BlockWriteAt > 0 {
+			conn.ArmBlock(c.BlockWriteAt)
+		}
 		engine := nbhttp.NewEngine(nbhttp.Config{ServerExecutor: inline, ClientExecutor: inline, SupportServerOnly: true, BodyAllocator: tracker, MaxWebsocketFramePayloadSize: 1000})
 		u := websocket.NewUpgrader()
 		u.Engine = engine
@@ -230,9 +239,9 @@ func runWS(c WSCase) vlib.Result {
 		}
 		var wsc *websocket.Conn
 		if c.Seq.ReceiverClient {
-			wsc = websocket.NewClientConn(u, conn, "", c.Seq.Compression, false)
+			wsc = websocket.NewClientConn(u, conn, "", c.Seq.Compression, c.AsyncWrite)
 		} else {
-			wsc = websocket.NewServerConn(u, conn, "", c.Seq.Compression, false)
+			wsc = websocket.NewServerConn(u, conn, "", c.Seq.Compression, c.AsyncWrite)
 		}
 		if c.Release {
 			if !setBool(wsc, "releasePayload", true) {
@@ -273,8 +282,28 @@ func runWS(c WSCase) vlib.Result {
 				break
 			}
 		}
+		if c.AsyncWrite && conn.Blocked == nil {
+			// let the sender goroutine drain what was queued before the connection is closed
+			time.Sleep(200 * time.Microsecond)
+		}
 		wsc.CloseAndClean(perr)
 		wsc.CloseAndClean(perr)
+		if conn.Blocked != nil {
+			select {
+			case <-conn.Blocked:
+				// the sender goroutine was inside a socket write while the connection was closed and cleaned:
+				// let the write return now and give the sender time to finish with its buffer
+				res.Classes = append(res.Classes, "close-while-sender-blocked-in-write")
+				close(conn.Gate)
+				select {
+				case <-conn.Returned:
+				case <-time.After(5 * time.Second):
+				}
+				time.Sleep(300 * time.Microsecond)
+			default:
+				close(conn.Gate) // never reached that write
+			}
+		}
 		vlib.Logs.Take()
 		if perr != nil || conn.IsClosed() {
 			res.Classes = append(res.Classes, "failed-or-closed")
@@ -308,6 +337,16 @@ func genWS(t *rapid.T) WSCase {
 		c.FailWriteAt = rapid.IntRange(1, 5).Draw(t, "failwat")
 	}
 	c.WriteCompress = rapid.Bool().Draw(t, "wcompress")
+	if rapid.IntRange(0, 2).Draw(t, "asyncwrite") == 0 {
+		c.AsyncWrite = true
+		if rapid.IntRange(0, 3).Draw(t, "blockwrite") > 0 {
+			c.BlockWriteAt = rapid.IntRange(1, 3).Draw(t, "blockat")
+			c.FailWriteAt = 0
+			for len(c.WriteSizes) < 3 {
+				c.WriteSizes = append(c.WriteSizes, rapid.SampledFrom([]int{1, 126, 1001, 2500}).Draw(t, "wsize2"))
+			}
+		}
+	}
 	c.Limit = rapid.SampledFrom([]int{0, 5, 20, 60, 100000}).Draw(t, "limit")
 	// sometimes corrupt one compressed payload so that inflating fails
 	if rapid.IntRange(0, 3).Draw(t, "corrupt") == 0 {
